@@ -134,10 +134,12 @@ def generate(rng, tier, index):
         return plan
     if x < 0.16:
         plan['kind'] = 'maxresp'
+        its = [r.choice(GOOD_TAIL + [{'op': 'Get', 'uid': '@k'},
+                                     {'op': 'GetAttributes', 'uid': '@k'}])]
+        for _ in range(r.choice([0, 0, 1, 2])):
+            its.append(copy.deepcopy(r.choice(GOOD_TAIL)))
         plan['req'] = {'actor': 0, 'ver': list(r.choice(gen.VERSIONS)),
-                       'items': [r.choice(GOOD_TAIL + [
-                           {'op': 'Get', 'uid': '@k'},
-                           {'op': 'GetAttributes', 'uid': '@k'}])]}
+                       'items': its, 'cont': 1 if len(its) > 1 else None}
         plan['deltas'] = [-8, -1, 0, 1, 8]
         return plan
     plan['kind'] = 'stream'
